@@ -240,6 +240,19 @@ Proof.
     + vm_compute. reflexivity.
 Qed.
 
+(* crash points x schedules: at EVERY reachable state of a concurrent execution
+   (in particular whenever the process is killed) the config document on disk is
+   the one a sequential run of a prefix of the linearisation leaves -- never a
+   mixture of two callers' updates; C18_atomic_op refines the single save step
+   [c_wfile] into system calls *)
+Theorem C18_file_always_sequential :
+  forall (enc : str -> str) (dec : str -> option str) g0 g lin,
+    initial g0 -> creach enc dec g0 g lin ->
+    exists n, (n <= length lin)%nat /\
+              st_file (g_store g) = st_file (run enc dec (g_store g0) (map lab_op (firstn n lin))).
+Proof. exact file_always_sequential. Qed.
+Print Assumptions C18_file_always_sequential.
+
 (* Get is pure: a Get -- answered by an exact key, by the legacy-key scan or not
    at all -- leaves memory (auths cache, content, credsStore) and file exactly
    as they were; so does any sequence of Gets *)
